@@ -9,6 +9,8 @@ standard-form table in Props/C02.lean).
 from __future__ import annotations
 
 import itertools
+import json
+import sys
 
 import numpy as np
 
@@ -96,12 +98,109 @@ def judge(ctx, m, tag, order=None):
             ctx.fail("C02/euler", "n_node - n_edge + n_face != 2 on a sphere tiling", inp, o, model, ["euler"])
         else:
             ctx.hit("euler-checked")
-    # correspondence with the model up to edge numbering
+    ctx.hit("simple-faces" if is_simple(t) else "non-simple-faces(repeated corner or < 3 corners)")
+    # correspondence with the model.  First up to the freedom the property grants (edge numbering) ...
     ci, cm = canon(o["edges"], o["faceEdges"]), canon(model["edges"], model["faceEdges"])
     if ci != cm or o["nPerFace"] != model["nPerFace"]:
         ctx.mismatch("C02/canon-edges", inp, o, model)
     elif (o["edges"], o["faceEdges"]) == (model["edges"], model["faceEdges"]):
         ctx.hit("identical-numbering")
+    else:
+        # ... then entry for entry.  The model of np.unique(axis=0) is sort + dedup, and Lean proves
+        # (edges_sorted, spec_sorted_unique) that an output meeting Spec whose edges are sorted pairs in
+        # lexicographic order IS the model's output.  So a difference here means the code no longer numbers
+        # the edges the way the model does (the property itself grants that freedom: the Spec verdict above
+        # stands, this is a correspondence finding, not a spec failure)
+        srt = [tuple(e) for e in o["edges"]]
+        how = ("pair-not-sorted" if any(a > b for a, b in srt) else
+               "rows-not-in-lexicographic-order" if srt != sorted(srt) else "face-edge-entries")
+        ctx.mismatch("C02/edge-numbering/" + how, inp, o, model)
+
+
+def is_simple(t):
+    """every face has pairwise distinct corners, at least three (hypothesis of edge_faces_distinct)"""
+    for r in t:
+        f = [v for v in r if v != INT_FILL]
+        if len(f) < 3 or len(set(f)) != len(f):
+            return False
+    return True
+
+
+MALFORMED_KINDS = ["fill-inside-row", "fill-first", "empty-row", "index-out-of-range", "negative-index"]
+
+
+def draw_malformed(rng):
+    """a rectangular table that is NOT in standard form (outside the property's quantifier)"""
+    kind = rng.choice(MALFORMED_KINDS)
+    nf, w, n = rng.randint(1, 3), rng.randint(2, 6), rng.randint(2, 6)
+    t = []
+    for _ in range(nf):
+        k = rng.randint(1, w)
+        t.append([rng.randrange(n) for _ in range(k)] + [INT_FILL] * (w - k))
+    r = rng.randrange(nf)
+    if kind == "fill-inside-row":
+        j = rng.randrange(0, w - 1)
+        t[r][j] = INT_FILL
+        t[r][rng.randrange(j + 1, w)] = rng.randrange(n)
+    elif kind == "fill-first":
+        t[r][0] = INT_FILL
+        if rng.random() < 0.7:
+            t[r][rng.randrange(1, w)] = rng.randrange(n)
+    elif kind == "empty-row":
+        t[r] = [INT_FILL] * w
+    elif kind == "index-out-of-range":
+        t[r][0] = n + rng.randrange(3)
+    else:
+        t[r][0] = -1 - rng.randrange(3)
+    return kind, t, n
+
+
+def malformed_stream(ctx):
+    """OUTSIDE the property's quantifier: tables not in standard form.  The real builders validate nothing
+    (no exception, tables are produced); the Lean model is total in the same way.  Model and code are compared
+    entry for entry - this ties the transcription (np.put at the first fill, argmax, unique, searchsorted) to
+    the code on inputs the well-formed generators never produce.  Whatever happens here is REPORTED (hits and a
+    note) and is never a verdict on the property: no ctx.fail / ctx.mismatch, no ctx.case."""
+    import uxarray as ux
+
+    d = ctx.driver
+    differs = []
+    for _ in range(ctx.n(60, 600)):
+        kind, t, n = draw_malformed(ctx.rng)
+        w = len(t[0])
+        if d.ask("C02.std", n, w, enc_rows(t)) == "1":
+            ctx.hit("malformed:drawn-table-was-standard(skipped)")
+            continue
+        nn = max([n] + [v + 1 for r in t for v in r if v != INT_FILL])
+        lon, lat = np.linspace(-170.0, 170.0, nn), np.linspace(-60.0, 60.0, nn)
+        mo = common.Tok(d.ask("C02.model", enc_rows(t)))
+        model = dict(edges=mo.pairs(), faceEdges=mo.rows(), nPerFace=mo.ints())
+        try:
+            g = ux.Grid.from_topology(node_lon=lon, node_lat=lat, face_node_connectivity=np.array(t, dtype=np.int64),
+                                      fill_value=INT_FILL)
+            for name in ctx.rng.choice(ORDERS):
+                getattr(g, name)
+            o = dict(edges=[(int(a), int(b)) for a, b in g.edge_node_connectivity.values],
+                     faceEdges=[[int(x) for x in r] for r in g.face_edge_connectivity.values],
+                     nPerFace=[int(x) for x in g.n_nodes_per_face.values])
+        except Exception as e:
+            ctx.hit(f"malformed:{kind}:code-raises-{type(e).__name__}(model accepts)")
+            differs.append(dict(kind=kind, table=t, raises=f"{type(e).__name__}: {e}"))
+            continue
+        same = ([tuple(e) for e in o["edges"]], o["faceEdges"], o["nPerFace"]) == \
+               ([tuple(e) for e in model["edges"]], model["faceEdges"], model["nPerFace"])
+        ctx.hit(f"malformed:{kind}:" + ("accepted-by-code-and-model,identical-tables" if same else "TABLES-DIFFER"))
+        if not same:
+            differs.append(dict(kind=kind, table=t, implementation=o, model=model))
+        # which Spec clauses the CODE's tables miss on such input (Lean proves of the model that only edges_sound
+        # and faceEdge_points_at can: nPerFace_ok_any, edges_complete_any, edges_once_any)
+        v = d.ask("C02.spec", w, enc_rows(t), enc_pairs(o["edges"]), enc_rows(o["faceEdges"]), enc_ints(o["nPerFace"]))
+        ctx.hit("malformed:code-output:" + ("meets-Spec-anyway" if v == "ok" else "misses=" + v.split(" ", 1)[1]))
+    if differs:
+        ctx.notes.append("malformed-input stream (outside the quantifier, no verdict): model and code differ on "
+                         f"{len(differs)} non-standard tables, first: {json.dumps(common._jsonable(differs[0]))[:600]}")
+        print(f"[C02] note (no verdict): {ctx.notes[-1][:300]}", file=sys.stderr)
+    ctx.extra["malformed_differs"] = ctx.extra.get("malformed_differs", 0) + len(differs)
 
 
 PRE_ATTRS = ["edge_node_connectivity", "face_edge_connectivity", "n_nodes_per_face", "edge_face_connectivity",
@@ -177,6 +276,11 @@ def judge_derived(ctx, m, tag, der=None, order=None):
         ctx.fail("C02/derived/n_edge", "n_edge differs from the number of edge rows", inp, o, model, ["n_edge"])
     if canon(o["edges"], o["faceEdges"]) != canon(model["edges"], model["faceEdges"]) or o["nPerFace"] != model["nPerFace"]:
         ctx.mismatch("C02/derived/canon-edges", inp, o, model)
+    else:
+        # a derived grid keeps the parent's edges re-indexed (it does not rebuild them), so its numbering is
+        # free: counted, never demanded
+        ctx.hit("derived:identical-numbering" if (o["edges"], o["faceEdges"]) == (model["edges"], model["faceEdges"])
+                else "derived:own-numbering(same tables up to edge numbering)")
 
 
 def small_scope(ctx):
@@ -198,6 +302,15 @@ def small_scope(ctx):
         nf = rng.randint(1, F)
         fs = [list(rng.choice(faces)) for _ in range(nf)]
         fs = [f[r:] + f[:r] for f in fs for r in [rng.randrange(len(f))]]
+        if rng.random() < 0.12:
+            # standard form does not ask for distinct corners or for three of them: degenerate faces are inside
+            # the quantifier (and are the other side of the hypothesis of edge_faces_distinct)
+            f = fs[rng.randrange(nf)]
+            if rng.random() < 0.5:
+                del f[rng.randint(1, 2):]
+            else:
+                i, j = rng.sample(range(len(f)), 2)
+                f[i] = f[j]
         used = sorted({v for f in fs for v in f})
         mp = {v: i for i, v in enumerate(used)}
         m = meshes.AMesh([[mp[v] for v in f] for f in fs], xyz[used], False, "small-scope")
@@ -211,9 +324,15 @@ def run(ctx):
                 "renumbering, start corner, rotation) + random small standard-form tables + grids DERIVED from them (random reads on the parent, "
                 "1-2 isel(n_face=...) selections in any order/shape, copy()); distinct = distinct "
                 "face-node table; non-trivial = more than one face or mixed sizes")
-    ctx.assumptions = ["NumPy semantics of np.unique/argmax/searchsorted are tied to the model only by this differential run",
+    ctx.rule += ("; the comparison with the model is entry for entry (identical edge numbering) on built grids; a separate "
+                 "malformed-input stream (tables NOT in standard form: fill inside / at the start of a row, empty rows, indices out of "
+                 "range or negative) compares code and model entry for entry and is reported without verdict")
+    ctx.assumptions = ["np.unique(axis=0) is modelled as sort + dedup in lexicographic row order (proved of the model: edges_sorted, "
+                       "uniqPair_eq_of_sorted); that NumPy does the same, and the NumPy semantics of argmax/np.put/searchsorted/reshape, "
+                       "are tied to the model by this differential run with IDENTICAL tables, also on non-standard tables",
                        "Euler's formula is tested on generated sphere tilings, not proved"]
     small_scope(ctx)
+    malformed_stream(ctx)
     for rep in range(ctx.n(1, 6)):
         for m in meshes.zoo(ctx.rng, big=(ctx.thorough or ctx.escalate or rep == 0)):
             judge(ctx, m, m.kind)
